@@ -1,4 +1,5 @@
 import functools
+import threading
 from contextlib import contextmanager
 from contextvars import ContextVar
 
@@ -416,23 +417,31 @@ def inplace(fn):
 tooled.inplace = inplace
 
 
+# The instrumentation counters of a function and the code installed on it are
+# shared by all threads: activations and deactivations must not interleave.
+_tooling_lock = threading.RLock()
+
+
 def _tooler(fn, captures):
     if not hasattr(fn, "__code__"):
         raise TypeError(f"{fn} cannot be tooled")
 
-    if hasattr(fn, "__ptera_stack__"):
-        st = fn.__ptera_stack__
-    else:
-        st = fn.__ptera_stack__ = SyncedStackedTransforms(fn, proceed=proceed)
+    with _tooling_lock:
+        if hasattr(fn, "__ptera_stack__"):
+            st = fn.__ptera_stack__
+        else:
+            st = SyncedStackedTransforms(fn, proceed=proceed)
+            fn.__ptera_stack__ = st
 
-    st.push(captures)
+        st.push(captures)
     return fn
 
 
 def _untooler(fn, captures):
-    if hasattr(fn, "__ptera_stack__"):
-        st = fn.__ptera_stack__
-        st.pop(captures)
+    with _tooling_lock:
+        if hasattr(fn, "__ptera_stack__"):
+            st = fn.__ptera_stack__
+            st.pop(captures)
     return fn
 
 
